@@ -9,6 +9,6 @@ trap 'git -C /repo checkout -- . ; git -C /repo clean -fdq' EXIT
 cd /verif
 for p in "$@"; do
   echo "=== $p on $(basename $(dirname $patch))/$(basename $patch)"
-  VERIF_KEEP= timeout 1800 ./check "$p" --tier quick 2>&1 | grep -v "^\[check\] coq build" | cut -c1-400 | head -30
+  VERIF_KEEP= timeout 1800 ./check "$p" --tier quick 2>&1 | grep -E "^(\[check\] (violation|proof|error)|VIOLATION|OK |KNOWN-FINDING|ERROR)" | cut -c1-400 | head -60
   echo "    exit=${PIPESTATUS[0]}"
 done
